@@ -110,7 +110,7 @@ def r18a(model, ctx):
 
 def r18b(model, ctx):
     R = "R-18b"
-    fn = model.func(f"{IO}::Buffer.elaborate")
+    fn = model.func_expanded(f"{IO}::Buffer.elaborate", depth=3)
     em = ElabModel(fn)
     t = unparse(fn)
     ok = "invert = sum((bit << idx for (idx, bit) in enumerate(self._port.invert)))" in t.replace("for idx, bit in", "for (idx, bit) in")
@@ -170,7 +170,7 @@ def r18b(model, ctx):
 
 def r18c(model, ctx):
     R = "R-18c"
-    fn = model.func(f"{IO}::FFBuffer.elaborate")
+    fn = model.func_expanded(f"{IO}::FFBuffer.elaborate", depth=3)
     em = ElabModel(fn)
     def one(t):
         h = [a for a in em.assigns if a.target_text == t]
